@@ -105,7 +105,12 @@ package sftp
 //@   ensures len(rest) <= len(b)
 
 //@ func unmarshalFileStat
-//@   property C08, C20
+//@   update after call unmarshalUint32Safe#6: ghost.extL0 = len(ret1)
+//@   loop 1 invariant len(b) + 8*int(i) <= ghost.extL0 && i <= count
+//@   ensures err == nil && flags & sshFileXferAttrExtended != 0 ==> len(rest) + 8*len(result0.Extended) <= ghost.extL0
+// (every extended pair that was decoded consumed its two length-prefixed strings: the remainder handed back starts
+//  behind the last pair, so the next entry of a NAME listing is decoded from the right place)
+//@   property C08, C20, C16, C06
 //@   results fs, rest, err
 //@   alloc-bound 4*len(b) + 64
 //@   ensures err == nil ==> fs != nil
@@ -279,6 +284,11 @@ package sftp
 //@   ensures 0 <= n && n <= len(b)
 //@   ensures err == nil ==> n == len(b)
 //@ func (*File).readAtSequential
+//@   loop 1 ghost cnt
+//@   update after call (*File).readChunkAt#1: ghost.cnt = ghost.cnt + ite(ret0 > 0, ret0, 0)
+//@   loop 1 invariant read == ghost.cnt - old(ghost.cnt)
+//@   ensures read == ghost.cnt - old(ghost.cnt)
+// (the count returned is the sum of the bytes the chunk reads delivered, the last partial chunk included)
 //@   property C01, C13
 //@   requires fileOK(f)
 //@   loop 1 invariant 0 <= read && read <= len(b) && fileOK(f)
@@ -296,6 +306,10 @@ package sftp
 //@   ensures err != nil ==> n == 0
 
 //@ func (*File).writeAt
+//@   loop 1 ghost cnt
+//@   update after call (*File).writeChunkAt#2: ghost.cnt = ghost.cnt + ite(ret0 > 0, ret0, 0)
+//@   loop 1 invariant written == ghost.cnt - old(ghost.cnt)
+//@   ensures (f.c.useConcurrentWrites == false && len(b) > f.c.maxPacket) && err != nil ==> written == ghost.cnt - old(ghost.cnt)
 //@   property C01, C13
 //@   requires fileOK(f) && off >= 0 && off <= 0x3fffffffffffffff && len(b) <= 0x3fffffffffffffff
 //@   loop 1 invariant 0 <= written && written <= len(b) && fileOK(f) && chunkSize == f.c.maxPacket
@@ -305,6 +319,12 @@ package sftp
 //@   ensures (f.c.useConcurrentWrites == false || len(b) <= f.c.maxPacket) && written < len(b) ==> err != nil
 
 //@ func (*File).writeToSequential
+//@   results written, err
+//@   loop 1 ghost cnt64
+//@   update after call (io.Writer).Write#1: ghost.cnt64 = ghost.cnt64 + int64(ret0)
+//@   loop 1 invariant written == ghost.cnt64 - old(ghost.cnt64)
+//@   ensures written == ghost.cnt64 - old(ghost.cnt64)
+// (the count returned is the sum of what the destination accepted)
 //@   property C01, C13, C12
 //@   requires fileOK(f)
 //@   requires w != nil
@@ -502,8 +522,16 @@ package sftp
 //  and comes either from the free list -- whose slot is cleared and cut off -- or from make)
 
 //@ func recvPacket
+//@   update before call io.ReadFull#1: ghost.rxErr = false
+//@   update after call io.ReadFull#1: ghost.rxErr = ret1 != nil
+//@   update after call unmarshalUint32#1: ghost.rxLen = ret0
+//@   update after call io.ReadFull#2: ghost.rxErr = ret1 != nil
+//@   ensures !ghost.rxErr && err == errLongPacket ==> ghost.rxLen > maxMsgLength
+//@   ensures !ghost.rxErr && err == errShortPacket ==> ghost.rxLen == 0
+//@   ensures !ghost.rxErr && err == nil ==> len(payload) + 1 == int(ghost.rxLen)
+// (a frame is refused as long only above the limit and as short only when empty; every other frame is delivered whole)
 //@   assert before call (*allocator).GetPage#1: arg1 == orderID
-//@   property C08, C07, C18, C15
+//@   property C08, C07, C18, C15, C02
 //@   results typ, payload, err
 //@   alloc-bound maxMsgLength + 64
 //@   requires r != nil
@@ -691,6 +719,7 @@ package sftp
 //  distinct for the life of the server object; the table is only written under its lock)
 
 //@ func (*Server).closeHandle
+//@   ensures svr.handleCount == old(svr.handleCount)
 //@   property C07, C11
 //@   requires filesOK(svr)
 //@   ensures filesOK(svr)
@@ -713,6 +742,7 @@ package sftp
 //@   ensures pkt != nil && (err == nil || isErr(err, errUnknownExtendedPacket)) ==> extOK(pkt) && attrsOK(pkt)
 
 //@ func (*packetManager).readyPacket
+//@   channel responses nodrop
 //@   property C02, C14
 //@   requires s != nil && s.working != nil && pkt.responsePacket != nil
 //@   update before send responses#1: ghost.ready = ghost.ready + 1
@@ -728,6 +758,7 @@ package sftp
 //@   trusted
 //@   ensures result ==> notExistShape(err)
 //@   ensures err == os.ErrNotExist ==> result
+//@   ensures typeis(err, syscall.Errno) ==> (result <==> err.(syscall.Errno) == syscall.ENOENT)
 //@   modifies nothing
 
 //@ func statusFromError
@@ -737,12 +768,20 @@ package sftp
 //@   ensures err == os.ErrNotExist ==> result.Code == sshFxNoSuchFile
 //@   ensures err == os.ErrPermission ==> result.Code == sshFxPermissionDenied
 //@   ensures err == io.EOF ==> result.Code == sshFxEOF
+//@   ensures typeis(err, syscall.Errno) ==> result.Code == translateErrno(err.(syscall.Errno))
 //@   ensures isErr(err, os.ErrPermission) && !notExistShape(err) ==> result.Code == sshFxPermissionDenied
 //@   ensures isErr(err, io.EOF) && !isErr(err, os.ErrPermission) && !notExistShape(err) ==> result.Code == sshFxEOF
 // (C10 / C05 error categories: the standard not-exist, permission and end-of-file errors, bare or inside os's own
 //  wrappers, keep their kind; SFTP status codes returned by handlers are passed through as given)
 
 //@ func handlePacket
+//@   assert before call statusFromError#15: !ok ==> arg1 != nil
+//@   assert before call (file).WriteAt#1: ok
+//@   assert before call (file).ReadAt#1: ok
+//@   assert before call (file).Stat#1: ok
+// (C11: a WRITE / READ / FSTAT naming a handle that is not in the table touches no file and is answered with an error)
+//@   assert before call (*packetManager).readyPacket#1: typeis(arg1.responsePacket, *sshFxVersionPacket) ==> arg1.responsePacket.(*sshFxVersionPacket).Version == 3 && arg1.responsePacket.(*sshFxVersionPacket).Extensions == sftpExtensions
+// (C19: the VERSION reply advertises protocol 3 and exactly the configured extension list)
 //@   update after call (*Server).toLocalPath#*: ghost.lp2 = ghost.lp1
 //@   update after call (*Server).toLocalPath#*: ghost.lpa2 = ghost.lpa1
 //@   update after call (*Server).toLocalPath#*: ghost.lp1 = ret
@@ -759,7 +798,7 @@ package sftp
 //@   assert before call (*Server).stat#1: arg1 == ghost.lp1 && ghost.lpa1 == p.Path
 //@   assert before call (*sshFxpOpenPacket).respond#1: arg0.Path == p.Path && arg0.Pflags == sshFxfRead && arg0.Flags == 0
 //@   assert before call (*sshFxpReadPacket).getDataSlice#1: arg1 == s.pktMgr.alloc && arg2 == old(p.orderid) && arg3 == s.maxTxPacket
-//@   property C07, C02, C09, C18, C15, C05
+//@   property C07, C02, C09, C18, C15, C05, C11, C19
 //@   requires serverOK(s) && p.requestPacket != nil && reqType(p.requestPacket) && extOK(p.requestPacket)
 //@   assert before call (*packetManager).readyPacket#1: arg1.orderid == p.orderid
 //@   assert before call (*packetManager).readyPacket#1: arg1.responsePacket != nil
@@ -978,6 +1017,8 @@ package sftp
 // (frame assumed: the runWorker callbacks passed by both servers only register with a WaitGroup and spawn a goroutine)
 
 //@ func (*Server).sftpServerWorker
+//@   assert before call (*packetManager).readyPacket#1: arg1.orderid == pkt.orderid && arg1.responsePacket != nil && arg1.responsePacket.id() == pkt.requestPacket.id()
+//@   assert before call (*packetManager).readyPacket#1: typeis(arg1.responsePacket, *sshFxpStatusPacket) && arg1.responsePacket.(*sshFxpStatusPacket).Code == sshFxPermissionDenied
 //@   property C07, C02, C09
 //@   requires serverOK(svr)
 //@   channel global:type:sftp.orderedRequest invariant m.requestPacket != nil && reqType(m.requestPacket) && extOK(m.requestPacket) && attrsOK(m.requestPacket)
@@ -1293,6 +1334,7 @@ package sftp
 //@   modifies rs.handleCount, mapof rs.openRequests, r.handle
 
 //@ func (*RequestServer).closeRequest
+//@   ensures rs.handleCount == old(rs.handleCount)
 //@   property C07, C11
 //@   requires reqsOK(rs)
 //@   ensures reqsOK(rs)
@@ -1312,6 +1354,11 @@ package sftp
 // (frame assumed: Close / cancel functions of handler-provided objects do not touch the server's handle table)
 
 //@ func (*Request).transferError
+//@   requires r != nil
+//@   assert before call (TransferError).TransferError#1: arg1 == err && arg0 == wr
+//@   assert before call (TransferError).TransferError#2: arg1 == err && arg0 == rw
+//@   assert before call (TransferError).TransferError#3: arg1 == err && arg0 == rd
+// (each of the three objects a request may own is offered the notification, with the error the sweep was given)
 //@   property C07, C11
 
 //@ func requestMethod
@@ -1435,8 +1482,9 @@ package sftp
 //@ ghost var curID uint32
 
 //@ func (*RequestServer).packetWorker
+//@   assert before call (*packetManager).readyPacket#1: typeis(arg1.responsePacket, *sshFxVersionPacket) ==> arg1.responsePacket.(*sshFxVersionPacket).Version == 3 && arg1.responsePacket.(*sshFxVersionPacket).Extensions == sftpExtensions
 //@   assert before call (*Request).call#*: arg3 == rs.pktMgr.alloc && arg4 == orderID && arg5 == rs.maxTxPacket
-//@   property C07, C02, C10, C11, C18, C15
+//@   property C07, C02, C10, C11, C18, C15, C19
 //@   requires rsOK(rs) && ctx != nil
 //@   requires MaxFilelist >= 1 && MaxFilelist <= 1000000
 //@   loop 1 invariant rsOK(rs) && MaxFilelist >= 1 && MaxFilelist <= 1000000
@@ -1707,8 +1755,14 @@ package sftp
 //@   requires fileOK(f) && w != nil
 //@   assume after make writeCh#1: true
 //@   update after make writeCh#1: ghost.wtEnd = f.offset
-//@   loop 2 ghost wtEnd
+//@   loop 2 ghost wtEnd, wtEOF
 //@   update after recv cur#1: ghost.wtEnd = ite(ret1 && len(ret0.b) > 0, ret0.off + int64(len(ret0.b)), ghost.wtEnd)
+//@   update after recv cur#1: ghost.wtEOF = ret1 && ret0.err == io.EOF
+//@   update after call (*sync.RWMutex).Lock#1: ghost.inRed = false
+//@   update after make writeCh#1: ghost.inRed = true
+//@   loop 2 invariant ghost.inRed
+//@   ensures ghost.inRed && err == nil ==> ghost.wtEOF
+// (the concurrent copy ends without error only on a chunk that reported the end of the file)
 //@   loop 2 invariant fileOK(f) && w != nil && f.offset == ghost.wtEnd && pool != nil
 //@   assert before call (io.Writer).Write#1: arg1 == packet.b
 //@   ensures f.handle == old(f.handle)
@@ -1903,16 +1957,16 @@ package sftp
 //@   property C07, C10, C05
 //@   results code, ok
 //@   ensures ok ==> typeis(err, syscall.Errno) || (typeis(err, *os.PathError) && typeis(err.(*os.PathError).Err, syscall.Errno))
-//@   ensures typeis(err, syscall.Errno) ==> ok
+//@   ensures typeis(err, syscall.Errno) ==> ok && code == translateErrno(err.(syscall.Errno))
 //@   modifies nothing
 
 //@ func translateErrno
 //@   property C07, C10, C05
+//@   function
 //@   ensures errno == 0 ==> result == sshFxOk
 //@   ensures errno == syscall.ENOENT ==> result == sshFxNoSuchFile
 //@   ensures errno == syscall.EACCES || errno == syscall.EPERM ==> result == sshFxPermissionDenied
 //@   ensures errno != 0 && errno != syscall.ENOENT && errno != syscall.EACCES && errno != syscall.EPERM ==> result == sshFxFailure
-//@   modifies nothing
 
 //@ func wrapPathError
 //@   property C07, C10, C05
@@ -2054,6 +2108,13 @@ package sftp
 // shutdown of the packet manager (C02: every received request is answered, also when the input ends right behind it)
 
 //@ ghost var drained bool
+//@ ghost var cnt int
+//@ ghost var cnt64 int64
+//@ ghost var rxLen uint32
+//@ ghost var rxErr bool
+//@ ghost var teW int
+//@ ghost var teRW int
+//@ ghost var teR int
 //@ ghost var ctlJoined bool
 
 //@ func (*packetManager).drain
@@ -2079,3 +2140,40 @@ package sftp
 //@   property C02
 //@   requires s != nil
 //@   modifies nothing
+
+//@ ghost var wfail bool
+//@ ghost var extL0 int
+//@ ghost var wtEOF bool
+//@ ghost var inRed bool
+
+//@ func (*File).ReadFrom
+//@   property C12, C13, C01
+//@   results n, err
+//@   requires fileOK(f) && r != nil && f.offset >= 0 && f.offset <= 0x3fffffffffffffff && !f.c.useConcurrentWrites
+//@   update after call (*sync.RWMutex).Lock#1: ghost.wfail = false
+//@   deadcode ret4
+//@   deadcode ret5
+//@   loop 1 ghost cnt, cnt64, wfail
+//@   update after call io.ReadFull#1: ghost.cnt64 = ghost.cnt64 + int64(ite(ret0 > 0, ret0, 0))
+//@   update after call (*File).writeChunkAt#1: ghost.cnt = ghost.cnt + ret0
+//@   update after call (*File).writeChunkAt#1: ghost.wfail = ret1 != nil
+//@   assert before call (*File).writeChunkAt#1: arg3 == f.offset && arg2 == b[:n] && locked(&f.mu) && f.handle != ""
+//@   loop 1 invariant fileOK(f) && len(b) == f.c.maxPacket && !ghost.wfail && f.handle == old(f.handle) && old(f.handle) != ""
+//@   loop 1 invariant read == ghost.cnt64 - old(ghost.cnt64)
+//@   loop 1 invariant f.offset == old(f.offset) + int64(ghost.cnt - old(ghost.cnt))
+//@   loop 1 assume f.offset >= 0 && f.offset <= 0x3fffffffffffffff
+//@   ensures old(f.handle) == "" ==> err == os.ErrClosed && n == 0 && f.offset == old(f.offset) && ghost.lastID == old(ghost.lastID)
+//@   ensures f.handle == old(f.handle)
+//@   ensures ghost.wfail ==> err != nil
+// (sequential configuration only -- with UseConcurrentWrites the work is done by readFromWithConcurrency, which has its
+//  own contract: the count is the number of bytes consumed from the source, the offset advances by exactly what the
+//  chunk writes accepted, a failed chunk write is always reported, and a closed File sends nothing)
+
+//@ func (*Client).HasExtension
+//@   property C19
+//@   results data, ok
+//@   requires c != nil && c.ext != nil
+//@   ensures ok <==> haskey(c.ext, name)
+//@   ensures ok ==> data == c.ext[name]
+//@   modifies nothing
+// (an extension is reported iff the server advertised it, whatever its data string -- the empty string included)
